@@ -80,11 +80,11 @@ Lemma step_inv limit s e s' : cs_inv (clients s) -> ev_wf e ->
   step fixed limit s e = Some s' -> cs_inv (clients s').
 Proof.
   intros I W St. destruct e as [metas frames ws|order|t ws]; cbn [step] in St.
-  - unfold step_wake in St. destruct (blimit limit <? len frames); [discriminate|].
+  - unfold step_wake in St. destruct (_ || _); [discriminate|].
     destruct frames as [|f fr].
     + injection St as <-. cbn. auto.
     + remember (f :: fr) as frames. cbn [clients] in St.
-      destruct (fan_out fixed (blimit limit) frames ws (clients s)) as [[cs' rm]|] eqn:F; [|discriminate].
+      destruct (fan_out fixed (lim_of fixed limit) frames ws (clients s)) as [[cs' rm]|] eqn:F; [|discriminate].
       injection St as <-. cbn [fix_dec fixed].
       destruct (fan_out_inv _ _ _ W _ _ _ I F) as [H1 _].
       apply Forall_forall. intros tc Hin.
